@@ -559,6 +559,31 @@ pub open spec fn pick_ok(t: Tree, ls: Tree, r: Tree) -> bool decreases t {
         },
     }
 }
+
+/// `r` follows the caller's choice oracle `o` wherever the value is not forced (both children satisfiable)
+pub open spec fn pick_follows(t: Tree, o: spec_fn(Tree, u32) -> bool, r: Tree) -> bool decreases t {
+    match t {
+        Tree::Leaf(_) => true,
+        Tree::Inner(l, a, b) => match r {
+            Tree::Leaf(_) => false,
+            Tree::Inner(rl, ra, rb) => {
+                let free = *a != ff() && *b != ff();
+                ||| (*rb == ff() && (free ==> o(t, l)) && pick_follows(*a, o, *ra))
+                ||| (*ra == ff() && (free ==> !o(t, l)) && pick_follows(*b, o, *rb))
+            },
+        },
+    }
+}
+pub broadcast proof fn lemma_pick_follows_mk(l: u32, a: Tree, b: Tree, o: spec_fn(Tree, u32) -> bool, rl: u32, ra: Tree, rb: Tree)
+    ensures #[trigger] pick_follows(mk(l, a, b), o, mk(rl, ra, rb)) == ({
+        let free = a != ff() && b != ff();
+        ||| (rb == ff() && (free ==> o(mk(l, a, b), l)) && pick_follows(a, o, ra))
+        ||| (ra == ff() && (free ==> !o(mk(l, a, b), l)) && pick_follows(b, o, rb))
+    }),
+{}
+pub broadcast proof fn lemma_pick_follows_leaf(c: bool, o: spec_fn(Tree, u32) -> bool, r: Tree)
+    ensures #[trigger] pick_follows(Tree::Leaf(c), o, r),
+{}
 pub open spec fn is_cube(r: Tree) -> bool decreases r {
     match r {
         Tree::Leaf(b) => b,
@@ -709,7 +734,7 @@ pub broadcast proof fn lemma_lpopped_id(ls: Tree, until: int)
     requires top(ls) >= until,
     ensures #[trigger] lpopped(ls, until) == ls,
 {}
-pub broadcast group pick_lemmas { lemma_pick_ok_mk, lemma_pick_ok_leaf, lemma_pick_ok_ok, lemma_lit_pol_mk, lemma_lit_pol_leaf, lemma_pick_ok_lpopped, lemma_pick_ok_step, lemma_lit_pol_lpopped_b, lemma_lpopped_mk, lemma_lpopped_id, lemma_lpopped_ok }
+pub broadcast group pick_lemmas { lemma_pick_follows_mk, lemma_pick_follows_leaf, lemma_pick_ok_mk, lemma_pick_ok_leaf, lemma_pick_ok_ok, lemma_lit_pol_mk, lemma_lit_pol_leaf, lemma_pick_ok_lpopped, lemma_pick_ok_step, lemma_lit_pol_lpopped_b, lemma_lpopped_mk, lemma_lpopped_id, lemma_lpopped_ok }
 
 // ---------- model counting (C12) ----------
 pub open spec fn pow2(k: nat) -> int decreases k { if k == 0 { 1 } else { 2 * pow2((k - 1) as nat) } }
@@ -1221,6 +1246,9 @@ where M: Manager<Terminal = BDDTerminal> + HasApplyCache<M, BDDOp>, M::InnerNode
         // the choice function may be consulted only with a node whose two children are both satisfiable, and with that node's level
         forall|mm: &M, ee: &M::Edge, l: LevelNo| (ee.view() matches Tree::Inner(k, a, b) && k == l && *a != ff() && *b != ff()) ==> #[trigger] choice.requires((mm, ee, l)),
     ensures res is Ok ==> pick_ok(edge.view(), Tree::Leaf(true), res->Ok_0.view()) && ok(res->Ok_0.view(), manager.num_levels_spec()),
+        // wherever the value is not forced it is the value returned by the caller's choice function
+        res is Ok ==> forall|o: spec_fn(Tree, u32) -> bool| (forall|mm: &M, ee: &M::Edge, l: LevelNo, r: bool| #[trigger] choice.ensures((mm, ee, l), r) ==> r == o(ee.view(), l))
+            ==> #[trigger] pick_follows(edge.view(), o, res->Ok_0.view()),
     decreases edge.view(),
 //@end
 //@fn file=crates/oxidd-rules-bdd/src/simple/apply_rec.rs path=impl:BooleanFunction~for~BDDFunction<F>/fn:pick_cube_dd_set_edge/fn:inner rename=pick_cube_dd_set_edge__inner props=C13
